@@ -317,7 +317,7 @@ func spec() corr.Spec {
 		Count: func(tier string) int {
 			switch tier {
 			case "quick":
-				return 2500
+				return 6000
 			case "thorough":
 				return 40000
 			}
